@@ -1,12 +1,27 @@
 # C18 - partitioners: correspondence of afkak/partitioner.py with coq/Model/{Murmur,Partitioner}.v,
 # implementation-side monitors, evidence.  Exemplar driver: every other property follows this shape.
+#
+# Two ties connect the theorems of Props/C18.v to the code; the property is shown when EITHER is intact:
+#   (A) translator tie: pure_murmur2 is translated from the source of THIS run (harness/py2coq.py) and proved equal to
+#       the hand-written model and to Java's murmur2 (harness/murmur_tie.py, generic proof Proofs/MurmurGenTac.v,
+#       compiled in coq/Run/out/gen/<id>/ - nothing tracked is written);
+#   (B) the hand-written model (proved equal to the Java reference) + a differential correspondence with the real code
+#       without a single difference on this run.  When (A) is unavailable the key sample of (B) is multiplied by 20
+#       and every length 0..64 is covered with high bytes.
+# (A) down and (B) clean => no alarm, evidence says `translator_tie: unavailable: <reason>` and counts only the
+# obligations really checked.  Any difference in (B) => search for a concrete key => VIOLATION.
+import json
+import os
 import random
+import sys
 
 import vlib
 from vlib import lp
 
 MODEL = "partitioner"
 MODULE = "Model.Partitioner"
+HERE = os.path.dirname(os.path.abspath(__file__))
+VECTORS = os.path.join(os.path.dirname(HERE), "corpus", "C18", "java_murmur2_vectors.json")
 
 
 # ------------------------------------------------------------------ generators
@@ -18,6 +33,10 @@ def gen_key(rnd):
         n = rnd.randint(0, 40)
     else:
         n = rnd.randint(41, 600)
+    return key_of_len(rnd, n)
+
+
+def key_of_len(rnd, n):
     style = rnd.random()
     if style < 0.3:
         return [rnd.choice([0, 1, 0x7F, 0x80, 0x81, 0xFE, 0xFF]) for _ in range(n)]
@@ -26,7 +45,24 @@ def gen_key(rnd):
     return [rnd.randint(0, 255) for _ in range(n)]
 
 
-def gen_parts(rnd, allow_empty=True):
+def all_lengths_high(rnd, upto=64, per=6):
+    """every length 0..upto, several keys each, heavy in bytes >= 0x80 (used when tie (A) is unavailable)"""
+    out = []
+    for n in range(upto + 1):
+        for j in range(per):
+            if j % 3 == 0:
+                out.append([rnd.randint(0x80, 0xFF) for _ in range(n)])
+            elif j % 3 == 1:
+                out.append([rnd.choice([0x7F, 0x80, 0xFF]) for _ in range(n)])
+            else:
+                k = [rnd.randint(0, 255) for _ in range(n)]
+                for t in range(1, min(3, n) + 1):        # the trailing 1..3 bytes high
+                    k[-t] = rnd.choice([0x80, 0xFF, rnd.randint(0x80, 0xFF)])
+                out.append(k)
+    return out
+
+
+def gen_parts(rnd, allow_empty=True, ascending=False):
     r = rnd.random()
     if allow_empty and r < 0.03:
         return []
@@ -34,7 +70,7 @@ def gen_parts(rnd, allow_empty=True):
     style = rnd.random()
     if style < 0.5:
         return list(range(n))
-    if style < 0.8:
+    if style < 0.8 or ascending:
         return sorted(rnd.sample(range(0, 1000), n))
     ps = [rnd.randint(0, 1000) for _ in range(n)]  # unsorted, duplicates possible
     return ps
@@ -57,31 +93,36 @@ def gen_text(rnd):
 
 
 def gen_rr(rnd):
+    """(random_start, init, calls, mode).  60% of the histories use ascending lists only (compared exactly);
+    mode: 'copy' = a fresh list object per call, 'same' = one list object while the list is unchanged
+    (with an occasional equal-but-distinct object in the middle of a run)."""
     random_start = rnd.random() < 0.5
-    init = gen_parts(rnd, allow_empty=False)
+    asc = rnd.random() < 0.6
+    init = gen_parts(rnd, allow_empty=False, ascending=asc)
     calls = []
     cur = init
     for _ in range(rnd.randint(1, 40)):
         r = rnd.random()
         if r < 0.12:
-            cur = gen_parts(rnd, allow_empty=False)
+            cur = gen_parts(rnd, allow_empty=False, ascending=asc)
         elif r < 0.2:
             cur = sorted(cur)
         calls.append(list(cur))
-    return random_start, init, calls
+    return random_start, init, calls, rnd.choice(["copy", "same"])
 
 
-# ------------------------------------------------------------------ implementation drivers
-def java_murmur2(data):
-    """Independent transcription of org.apache.kafka.common.utils.Utils.murmur2 with int32 wrap
-    (used only to label a replay; the proved reference is Model.Partitioner.murmur2_java)."""
+# ------------------------------------------------------------------ references
+def java_murmur2(data, seed=0x9747B28C):
+    """Independent transcription of org.apache.kafka.common.utils.Utils.murmur2 with int32 wrap (used to label a
+    replay, as the monitor of the client stream, and as the stand-in for the C extension; it is itself compared
+    with the JVM-produced vectors on every run; the proved reference is Model.Partitioner.murmur2_java)."""
     def i32(x):
         x &= 0xFFFFFFFF
         return x - (1 << 32) if x >= (1 << 31) else x
     sdata = [b - 256 if b > 127 else b for b in data]
     length = len(sdata)
-    m, r = 0x5BD1E995, 24
-    h = i32(0x9747B28C ^ length)
+    m, r = i32(0x5BD1E995), 24
+    h = i32(i32(seed) ^ length)
     for i in range(length // 4):
         i4 = i * 4
         k = i32((sdata[i4] & 0xFF) + ((sdata[i4 + 1] & 0xFF) << 8) + ((sdata[i4 + 2] & 0xFF) << 16) + ((sdata[i4 + 3] & 0xFF) << 24))
@@ -105,16 +146,30 @@ def java_murmur2(data):
     return h
 
 
+def java_partition(key, n):
+    return (java_murmur2(key) & 0x7FFFFFFF) % n
+
+
+def load_vectors():
+    v = json.load(open(VECTORS))
+    return v["n_list"], [(list(bytes.fromhex(h)), val, parts) for h, val, parts in v["vectors"]], v["produced_by"]
+
+
+# ------------------------------------------------------------------ implementation drivers
 def impl_murmur(key):
     from afkak.partitioner import pure_murmur2
-    return [pure_murmur2(bytearray(key))]
+    try:
+        return [pure_murmur2(bytearray(key))]
+    except Exception as e:     # noqa: BLE001 - a hash that raises on a byte string is a difference, not a crash of the check
+        return [-7, len(type(e).__name__)]
 
 
-def impl_hashed(key, parts, form):
-    from afkak.partitioner import HashedPartitioner
+def impl_hashed(key, parts, form, cls=None):
+    if cls is None:
+        from afkak.partitioner import HashedPartitioner as cls
     # constructed with a DIFFERENT list than the one passed to partition(): the result may depend only on
     # the key and the list supplied with the call
-    hp = HashedPartitioner("t", list(range(len(key) % 7 + 1)))
+    hp = cls("t", list(range(len(key) % 7 + 1)))
     try:
         if form == "text":
             k = "".join(chr(c) for c in key)
@@ -122,10 +177,13 @@ def impl_hashed(key, parts, form):
             k = bytes(key)
         else:
             k = bytearray(key)
-        p = hp.partition(k, list(parts))
+        lst = list(parts)
+        p = hp.partition(k, lst)
         p2 = hp.partition(k, list(parts))
         if p != p2:
             return [-2]
+        if lst != list(parts):
+            return [-4]     # the caller's list was modified
         return [1, p]
     except (ZeroDivisionError, UnicodeEncodeError):
         return [0]
@@ -133,43 +191,91 @@ def impl_hashed(key, parts, form):
         return [-3]     # never a legal outcome for a non-empty list: shows up as a difference
 
 
-def impl_rr(random_start, init, calls, rnd):
-    """returns (outputs, starts actually drawn)"""
-    import afkak.partitioner as P
-    drawn = []
+def impl_utf8(cps):
+    """what the pure-Python path does to a text key: bytearray(key, "UTF-8") (partitioner.py:200)"""
+    try:
+        s = "".join(chr(c) for c in cps)
+        b = bytearray(s, "UTF-8")
+        if bytes(b) != s.encode("UTF-8"):
+            return [-2]
+        return [1] + list(b)
+    except UnicodeEncodeError:
+        return [0]
 
-    def fake_randint(a, b):
-        v = rnd.randint(a, b)
-        drawn.append(v)
+
+class Draws(object):
+    """randint stand-in: draws from rnd and records, or replays a recorded list"""
+
+    def __init__(self, rnd=None, replay=None):
+        self.rnd, self.replay, self.drawn = rnd, (list(replay) if replay is not None else None), []
+
+    def __call__(self, a, b):
+        if self.replay is not None:
+            v = self.replay.pop(0) if self.replay else a
+            v = min(max(v, a), b)
+        else:
+            v = self.rnd.randint(a, b)
+        self.drawn.append(v)
         return v
+
+
+def impl_rr(random_start, init, calls, draws, mode="copy"):
+    """returns (outputs, start0, starts actually drawn, note or None)"""
+    import afkak.partitioner as P
     old_r, old_flag = P.randint, P.RoundRobinPartitioner.randomStart
-    P.randint = fake_randint
-    outs, starts = [], []
+    P.randint = draws
+    drawn = draws.drawn
+    outs, starts, note = [], [], None
     try:
         P.RoundRobinPartitioner.set_random_start(random_start)
-        rr = P.RoundRobinPartitioner("t", list(init))
-        start0 = drawn[-1] if drawn else 0
-        for c in calls:
+        n0 = len(drawn)
+        first = list(init)
+        rr = P.RoundRobinPartitioner("t", first)
+        start0 = drawn[-1] if len(drawn) > n0 else 0
+        if first != list(init):
+            note = "constructor modified the caller's list"
+        obj, prev = None, None
+        for i, c in enumerate(calls):
             n0 = len(drawn)
+            if mode == "same" and prev == c and obj is not None and i % 7 != 5:
+                arg = obj                       # the very same list object again
+            else:
+                arg = list(c)                   # an equal but distinct object
+            obj, prev = arg, list(c)
             try:
-                outs.append(rr.partition(None, list(c)))
+                outs.append(rr.partition(None, arg))
             except (StopIteration, ValueError):
                 outs.append(-1)
                 starts.append(0)
                 break
+            if arg != c and note is None:
+                note = "partition() modified the caller's list at call %d" % i
             starts.append(drawn[-1] if len(drawn) > n0 else 0)
     finally:
         P.randint = old_r
         P.RoundRobinPartitioner.randomStart = old_flag
-    return outs, start0, starts
+    return outs, start0, starts, note
 
 
-def rr_case(init, start0, calls, starts):
-    c = [4] + lp(init) + [start0]
+def rr_case(init, start0, calls, starts, op=6):
+    c = [op] + lp(init) + [start0]
     for parts, st in zip(calls, starts):
         c += lp(parts) + [st]
     return c
 
+
+def rr_canon(init, calls, outs):
+    """the canonical trace of Model.Partitioner.rr_run_canon: exact selections up to the first non-ascending list,
+    then -2 (member of the supplied list) / -3 (not a member)"""
+    exact = list(init) == sorted(init)
+    res = []
+    for parts, o in zip(calls, outs):
+        exact = exact and list(parts) == sorted(parts)
+        if o == -1:
+            res.append(-1)
+            break
+        res.append(o if exact else (-2 if o in parts else -3))
+    return res
 
 
 # ------------------------------------------------------------------ end-to-end through Producer
@@ -189,43 +295,39 @@ def producer_history(rnd):
     return {"kind": kind, "random_start": random_start, "calls": calls}
 
 
-def impl_producer(hist, rnd):
+class StandInClient(object):
+    def __init__(self):
+        from twisted.internet import task
+        self.reactor = task.Clock()
+        self.topic_partitions = {}
+        self._api_versions = 0
+        self.sent = []
+
+    def metadata_error_for_topic(self, topic):
+        return 0
+
+    def load_metadata_for_topics(self, *topics):
+        from twisted.internet import defer
+        return defer.succeed(True)
+
+    def reset_topic_metadata(self, *topics):
+        pass
+
+    def send_produce_request(self, payloads, **kw):
+        from twisted.internet import defer
+        from afkak.common import ProduceResponse
+        self.sent.append([(p.topic, p.partition) for p in payloads])
+        return defer.succeed([ProduceResponse(p.topic, p.partition, 0, 0) for p in payloads])
+
+
+def impl_producer(hist, draws):
     """Drive the real Producer (unbatched) over a stand-in client; observe the partition of each payload."""
-    from twisted.internet import defer, task
     import afkak.partitioner as P
     from afkak.producer import Producer
-    from afkak.common import ProduceResponse
-
-    drawn = []
-
-    def fake_randint(a, b):
-        v = rnd.randint(a, b)
-        drawn.append(v)
-        return v
-
-    class Client(object):
-        def __init__(self):
-            self.reactor = task.Clock()
-            self.topic_partitions = {}
-            self._api_versions = 0
-            self.sent = []
-
-        def metadata_error_for_topic(self, topic):
-            return 0
-
-        def load_metadata_for_topics(self, *topics):
-            return defer.succeed(True)
-
-        def reset_topic_metadata(self, *topics):
-            pass
-
-        def send_produce_request(self, payloads, **kw):
-            self.sent.append([(p.topic, p.partition) for p in payloads])
-            return defer.succeed([ProduceResponse(p.topic, p.partition, 0, 0) for p in payloads])
-
-    client = Client()
+    drawn = draws.drawn
+    client = StandInClient()
     old_r, old_flag = P.randint, P.RoundRobinPartitioner.randomStart
-    P.randint = fake_randint
+    P.randint = draws
     per_topic = {}
     try:
         P.RoundRobinPartitioner.set_random_start(hist["random_start"])
@@ -253,50 +355,270 @@ def impl_producer(hist, rnd):
         P.RoundRobinPartitioner.randomStart = old_flag
     return {t: tuple(v) for t, v in per_topic.items()}
 
+
+# ------------------------------------------------------------------ end-to-end through the real KafkaClient metadata path
+def metadata_response(correlation_id, brokers, topics):
+    """MetadataResponse v0 bytes.  topics: [(name, [partition ids IN THE ORDER TO PUT ON THE WIRE])]"""
+    import struct
+    out = [struct.pack(">ii", correlation_id, len(brokers))]
+    for node, host, port in brokers:
+        hb = host.encode()
+        out.append(struct.pack(">ih", node, len(hb)) + hb + struct.pack(">i", port))
+    out.append(struct.pack(">i", len(topics)))
+    for name, parts in topics:
+        nb = name.encode()
+        out.append(struct.pack(">hh", 0, len(nb)) + nb + struct.pack(">i", len(parts)))
+        for p in parts:
+            out.append(struct.pack(">hiii", 0, p, 1, 1) + struct.pack(">i", 1) + struct.pack(">ii", 1, 1))
+    return b"".join(out)
+
+
+def client_history(rnd):
+    """sends through a real Producer over a REAL KafkaClient whose metadata responses list partitions out of order"""
+    kind = rnd.choice(["rr", "rr", "hashed"])
+    ntopics = rnd.randint(1, 2)
+
+    def wire_order(n):
+        ids = list(range(n)) if rnd.random() < 0.8 else sorted(rnd.sample(range(0, 64), n))
+        r = rnd.random()
+        if r < 0.4:
+            ids = ids[::-1]
+        elif r < 0.9:
+            rnd.shuffle(ids)
+        return ids
+    topics = {t: wire_order(rnd.choice([2, 3, 4, 5, 8, 12])) for t in range(ntopics)}
+    steps = []
+    for _ in range(rnd.randint(6, 36)):
+        t = rnd.randrange(ntopics)
+        if rnd.random() < 0.1:
+            n = len(topics[t]) if rnd.random() < 0.5 else rnd.choice([2, 3, 4, 6, 9])
+            steps.append(("refresh", t, wire_order(n)))
+        else:
+            steps.append(("send", t, gen_key(rnd)[:12] if kind == "hashed" else None))
+    return {"kind": kind, "random_start": rnd.random() < 0.4, "topics": {str(t): v for t, v in topics.items()}, "steps": steps}
+
+
+def impl_client(hist, draws):
+    """returns {topic: (kind, random_start, init, start0, calls(list at call time = client.topic_partitions), starts,
+    keys, outs)}, plus the lists client.topic_partitions held after every metadata response"""
+    from twisted.internet import defer, task
+    import afkak.partitioner as P
+    from afkak.client import KafkaClient
+    from afkak.producer import Producer
+    from afkak.common import ProduceResponse
+
+    drawn = draws.drawn
+    wire = {int(t): list(v) for t, v in hist["topics"].items()}
+    client = KafkaClient("kafka1:9092", reactor=task.Clock(), enable_protocol_version_discovery=False)
+    sent, seen_lists = [], []
+
+    def unaware(request_id, request):
+        resp = metadata_response(request_id, [(1, "kafka1", 9092)], [("topic%d" % t, wire[t]) for t in sorted(wire)])
+        return defer.succeed(resp)
+
+    def send_produce_request(payloads=None, **kw):
+        sent.append([(p.topic, p.partition) for p in payloads])
+        return defer.succeed([ProduceResponse(p.topic, p.partition, 0, 0) for p in payloads])
+    client._send_broker_unaware_request = unaware
+    client.send_produce_request = send_produce_request
+    old_r, old_flag = P.randint, P.RoundRobinPartitioner.randomStart
+    P.randint = draws
+    per_topic = {}
+    try:
+        P.RoundRobinPartitioner.set_random_start(hist["random_start"])
+        cls = P.RoundRobinPartitioner if hist["kind"] == "rr" else P.HashedPartitioner
+        prod = Producer(client, partitioner_class=cls)
+        for step in hist["steps"]:
+            if step[0] == "refresh":
+                wire[step[1]] = list(step[2])
+                client.load_metadata_for_topics("topic%d" % step[1])
+                seen_lists.append((step[1], list(client.topic_partitions.get("topic%d" % step[1], []))))
+                continue
+            _, t, key = step
+            topic = "topic%d" % t
+            n0, s0 = len(drawn), len(sent)
+            prod.send_messages(topic, key=(bytes(key) if key is not None else None), msgs=[b"m"])
+            chosen = sent[s0][0][1] if len(sent) > s0 else -1
+            parts = list(client.topic_partitions.get(topic, []))
+            seen_lists.append((t, parts))
+            rec = per_topic.setdefault(t, [hist["kind"], hist["random_start"], None, 0, [], [], [], []])
+            if rec[2] is None:
+                rec[2] = list(parts)
+                rec[3] = drawn[n0] if len(drawn) > n0 else 0
+                st = drawn[n0 + 1] if len(drawn) > n0 + 1 else 0
+            else:
+                st = drawn[n0] if len(drawn) > n0 else 0
+            rec[4].append(parts)
+            rec[5].append(st)
+            rec[6].append(key)
+            rec[7].append(chosen)
+    finally:
+        P.randint = old_r
+        P.RoundRobinPartitioner.randomStart = old_flag
+    return {t: tuple(v) for t, v in per_topic.items()}, seen_lists
+
+
+def monitor_client(hist, per_topic, seen_lists):
+    """the property, restated over what the producer did: the list handed to the partitioner is the topic's partition
+    set ascending; round robin is fair over it; a keyed message goes where the Java client would send it"""
+    for t, lst in seen_lists:
+        if lst != sorted(lst):
+            return "client.topic_partitions['topic%d'] is not ascending: %r" % (t, lst)
+    for t, (kind, _rs, _init, _s0, calls, _starts, keys, outs) in sorted(per_topic.items()):
+        if kind == "rr":
+            bad = monitor_rr([sorted(c) for c in calls], outs)
+            if bad:
+                return "topic%d: %s" % (t, bad)
+        else:
+            for k, c, o in zip(keys, calls, outs):
+                ids = sorted(c)
+                if ids and ids == list(range(len(ids))) and o != java_partition(k, len(ids)):
+                    return "topic%d: key %r sent to partition %r, the Java client picks %r of %d" % (t, k, o, java_partition(k, len(ids)), len(ids))
+                if o not in ids:
+                    return "topic%d: partition %r is not one of %r" % (t, o, ids)
+    return None
+
+
+# ------------------------------------------------------------------ the C-extension coercion path (partitioner.py:171-186)
+def load_cpath_module():
+    """afkak/partitioner.py imported a second time with a stand-in `murmurhash2` module, so that the branch
+    `if _c_murmur2:` (key coercion for the C extension) is executed.  The C function itself is NOT exercised:
+    the stand-in is the reference transcription java_murmur2."""
+    import importlib.util
+    import types
+    fake = types.ModuleType("murmurhash2")
+
+    def murmurhash2(key, seed):
+        if not isinstance(key, bytes):
+            raise TypeError("a bytes-like object is required, not %r" % type(key))
+        return java_murmur2(list(key), seed) & 0xFFFFFFFF
+    fake.murmurhash2 = murmurhash2
+    saved = sys.modules.get("murmurhash2")
+    sys.modules["murmurhash2"] = fake
+    try:
+        spec = importlib.util.spec_from_file_location("_c18_cpath_partitioner", os.path.join(vlib.REPO, "afkak", "partitioner.py"))
+        mod = importlib.util.module_from_spec(spec)
+        spec.loader.exec_module(mod)
+    finally:
+        if saved is None:
+            sys.modules.pop("murmurhash2", None)
+        else:
+            sys.modules["murmurhash2"] = saved
+    return mod
+
+
 # ------------------------------------------------------------------ monitors (theorem statements over impl traces)
 def monitor_rr(calls, outs):
-    """fairness: every maximal run of calls with an unchanged ascending list, cut into windows of n,
-    selects each partition exactly (multiplicity) times; every selection is a member of the list."""
+    """C18_rr_fair on the implementation's own trace: inside every maximal run of calls with an unchanged ascending
+    list, EVERY window of n consecutive selections (sliding, not only aligned) selects each partition exactly as
+    often as it occurs in the list; every selection is a member of the list supplied with the call."""
     i = 0
     while i < len(outs):
         parts = calls[i]
         j = i
         while j < len(outs) and calls[j] == parts:
             j += 1
-        if outs[i:j] and any(o not in parts for o in outs[i:j] if o != -1):
+        if any(o not in parts for o in outs[i:j] if o != -1):
             return "selection outside the list at call %d" % i
         if parts == sorted(parts) and parts:
             n = len(parts)
-            w = i
-            while w + n <= j:
+            want = sorted(parts)
+            for w in range(i, j - n + 1):
                 win = outs[w:w + n]
-                if sorted(win) != sorted(parts):
+                if sorted(win) != want:
                     return "unfair window calls[%d:%d] list=%r selections=%r" % (w, w + n, parts, win)
-                w += n
         i = j
     return None
 
 
 # ------------------------------------------------------------------ the check
+def translator_tie(ck):
+    """tie (A).  Returns (intact, reason)."""
+    import murmur_tie
+    import py2coq
+    src = os.path.join(vlib.REPO, "afkak/partitioner.py") + ":pure_murmur2"
+    ok, text, msg = py2coq.translate_repo(vlib.REPO)
+    info = {"source": src, "translated": ok, "message": msg}
+    ck.cov["translator"] = info
+    if not ok:
+        return False, "translation refused (%s)" % msg
+    try:
+        snap = open(py2coq.SNAPSHOT).read()
+    except OSError:
+        snap = None
+    info["same_as_committed_snapshot_Model/MurmurGen.v"] = (snap == text)
+    okb, log = murmur_tie.make_base()
+    if not okb:
+        raise vlib.CheckAbort("coq build of the generic translator proof failed:\n" + log)
+    r = murmur_tie.compile_scratch(text)
+    info["scratch_dir"] = os.path.relpath(r["dir"], vlib.ROOT)
+    if not r["ok"]:
+        info["proof"] = r["log"][-1500:]
+        first = r["log"].strip().splitlines()[0] if r["log"].strip() else r["stage"]
+        return False, "proof obligation broken: " + first
+    ck.cov["obligations"] += r["obligations"]
+    ck.cov["discharged"] += r["discharged"]
+    ck.cov["theorems"] += r["theorems"]
+    ck.cov["checker_cmd"] += " ; " + r["cmd"]
+    ck.cov["trusted_base"].append("translator harness/py2coq.py (Python int operators read as Z operators; indexing as Model.MurmurPy.py_index, range as py_range)")
+    return True, "intact"
+
+
 def run(ck):
     vlib.import_repo()
-    # translator tie: regenerate Model/MurmurGen.v from the CURRENT source, then re-check the theorems about it
-    import os
-    import py2coq
-    tr_ok, tr_msg = py2coq.generate_murmur(vlib.REPO, os.path.join(vlib.COQ, "Model", "MurmurGen.v"))
-    ck.cov["translator"] = {"source": os.path.join(vlib.REPO, "afkak/partitioner.py") + ":pure_murmur2", "translated": tr_ok, "message": tr_msg}
     ck.build([MODEL])
     ck.props()
-    ck.make_soft("Props/C18gen.vo")
-    ck.props("C18gen", soft=True)
+    tie_a, tie_reason = translator_tie(ck)
+    ck.cov["translator_tie"] = "intact" if tie_a else "unavailable: " + tie_reason
     rnd = random.Random(ck.seed)
     scale = 1 if ck.tier == "quick" else 20
+    kscale = scale * (1 if tie_a else 20)        # tie (A) down: tie (B) must carry the hash alone
     describe = lambda c: {"op": c[0], "line": c[:40]}
+    ndiff = [0]
+
+    def correspond(cases, impl, label, nontrivial):
+        diffs, mo = ck.correspond(MODEL, MODULE, cases, impl, label, nontrivial=nontrivial, describe=describe)
+        ndiff[0] += len(diffs)
+        return diffs, mo
+
+    # --- 0. the Java reference: JVM-produced vectors (harness/corpus/C18, real OpenJDK, Kafka's Utils.murmur2 verbatim)
+    n_list, vectors, produced_by = load_vectors()
+    ck.cov["java_vectors"] = {"file": os.path.relpath(VECTORS, vlib.ROOT), "count": len(vectors), "produced_by": produced_by, "n_list": n_list}
+    casesv = [[8] + lp(k) + list(n_list) for k, _, _ in vectors]
+    javav = [[h] + list(ps) for _, h, ps in vectors]
+    diffs, mo = correspond(casesv, javav, "JVM vectors (Utils.murmur2, toPositive(murmur2)%n) vs Model.Partitioner.murmur2_java / java_partition",
+                           lambda c, o: c[1] > 0)
+    for i in diffs[:2]:
+        ck.violation({"kind": "the Coq transcription murmur2_java / java_partition disagrees with the real JVM", "key_bytes": vectors[i][0],
+                      "jvm": javav[i], "model": mo[i], "theorems_no_longer_tied": ["C18_murmur_java", "C18_partition_java_ids"], "replay_op": "vector"})
+    from afkak.partitioner import HashedPartitioner
+    hp = HashedPartitioner("t", [0])
+    nbad = 0
+    for k, h, ps in vectors:
+        ck.hist("vector_keylen%%4=%d" % (len(k) % 4))
+        got = impl_murmur(k)[0]
+        if java_murmur2(k) != h:
+            raise vlib.CheckAbort("harness transcription java_murmur2 disagrees with the JVM vector for %r" % (k,))
+        ids = [hp.partition(bytes(k), list(range(n))) for n in n_list] if got == h & 0xFFFFFFFF else None
+        if got != h & 0xFFFFFFFF or ids != list(ps):
+            nbad += 1
+            ndiff[0] += 1
+            if nbad <= 2:
+                kk = shrink_key(k, lambda x: impl_murmur(x)[0] != (java_murmur2(x) & 0xFFFFFFFF)) if got != h & 0xFFFFFFFF else k
+                ck.violation({"kind": "pure_murmur2 / HashedPartitioner differs from the real JVM (Kafka Utils.murmur2, toPositive % n)",
+                              "key_bytes": kk, "impl": impl_murmur(kk)[0], "java": java_murmur2(kk) & 0xFFFFFFFF,
+                              "partition_ids_impl": ids, "partition_ids_java": list(ps), "n_list": n_list, "replay_op": "murmur"})
+    ck.cov["correspondence"]["real pure_murmur2 and HashedPartitioner ids on [0..n-1] vs JVM vectors"] = {
+        "cases": len(vectors) * (1 + len(n_list)), "differences": nbad, "in_coq_sample": 0}
+    ck.cov["evaluations"] += len(vectors)
 
     # --- 1. murmur2 on byte strings (ops 1 and 5: impl vs python-model and vs Java-model)
     keys = [[], [0], [255], [0x80] * 3, list(b"abc"), list(b"21"), list(b"foobar"),
             list(b"a-little-bit-long-string"), list(range(256))]
-    keys += [gen_key(rnd) for _ in range(700 * scale)]
+    keys += [gen_key(rnd) for _ in range(700 * kscale)]
+    if not tie_a:
+        keys += all_lengths_high(rnd)
+        ck.hist("keys_added_because_translator_tie_is_down", len(keys))
     for k in keys:
         ck.hist("keylen%%4=%d" % (len(k) % 4))
         if any(b >= 0x80 for b in k):
@@ -306,13 +628,13 @@ def run(ck):
     impl1 = [impl_murmur(k) for k in keys]
     for label, cases in (("pure_murmur2 vs Model.Murmur.pure_murmur2", cases1),
                          ("pure_murmur2 vs Model.Partitioner.murmur2_java (Java int32 reference)", cases5)):
-        diffs, mo = ck.correspond(MODEL, MODULE, cases, impl1, label, nontrivial=lambda c, o: c[1] > 0, describe=describe)
+        diffs, mo = correspond(cases, impl1, label, lambda c, o: c[1] > 0)
         for i in diffs[:3]:
             k = shrink_key(keys[i], lambda kk: impl_murmur(kk)[0] != (java_murmur2(kk) & 0xFFFFFFFF))
             ck.violation({"kind": "murmur2 differs from the Java reference", "key_bytes": k,
                           "impl": impl_murmur(k)[0], "java": java_murmur2(k) & 0xFFFFFFFF, "replay_op": "murmur"})
 
-    # --- 2. hashed partitioner on bytes / bytearray / text
+    # --- 2. hashed partitioner on bytes / bytearray / text; the UTF-8 encoder itself
     cases, impl, meta = [], [], []
     for _ in range(500 * scale):
         parts = gen_parts(rnd)
@@ -329,88 +651,176 @@ def run(ck):
             ck.hist("hashed_empty_list")
         impl.append(impl_hashed(k, parts, form))
         meta.append((k, parts, form))
-    diffs, mo = ck.correspond(MODEL, MODULE, cases, impl, "HashedPartitioner.partition vs Model.Partitioner.hashed_partition[_text]",
-                              nontrivial=lambda c, o: o[0] == 1, describe=describe)
+    diffs, mo = correspond(cases, impl, "HashedPartitioner.partition vs Model.Partitioner.hashed_partition[_text]", lambda c, o: o[0] == 1)
     for i in diffs[:3]:
         k, parts, form = meta[i]
         ck.violation({"kind": "hashed partition differs from the proved model (Java-compatible index)",
                       "key": k, "form": form, "partitions": parts, "impl": impl[i], "model": mo[i], "replay_op": "hashed"})
-    # monitors: membership, text == utf-8 bytes
+    # monitors: membership, determinism, caller's list untouched, text == utf-8 bytes
     for (k, parts, form), o in zip(meta, impl):
         if o[0] == 1 and o[1] not in parts:
             ck.violation({"kind": "result outside partition list", "key": k, "form": form, "partitions": parts, "impl": o, "replay_op": "hashed"})
         if o == [-2]:
             ck.violation({"kind": "non-deterministic partition()", "key": k, "form": form, "partitions": parts, "replay_op": "hashed"})
+        if o == [-4]:
+            ck.violation({"kind": "partition() modified the caller's partition list", "key": k, "form": form, "partitions": parts, "replay_op": "hashed"})
         if form == "text" and o[0] == 1:
             kb = list("".join(chr(c) for c in k).encode("utf-8"))
             if impl_hashed(kb, parts, "bytes") != o:
                 ck.violation({"kind": "text and UTF-8 byte forms disagree", "key": k, "partitions": parts, "replay_op": "hashed"})
+    texts = [[], [0x41], [0x7F], [0x80], [0x7FF], [0x800], [0xFFFF], [0x10000], [0x10FFFF], [0xD7FF], [0xD800], [0xDFFF], [0xE000]]
+    texts += [gen_text(rnd) for _ in range(250 * scale)]
+    cases7 = [[7] + lp(t) for t in texts]
+    impl7 = [impl_utf8(t) for t in texts]
+    for t in texts:
+        ck.hist("utf8_text_with_non_bmp" if any(c >= 0x10000 for c in t) else "utf8_text_bmp_only")
+    diffs, mo = correspond(cases7, impl7, "bytearray(text, 'UTF-8') / str.encode vs Model.Partitioner.utf8 (proved against the RFC 3629 decoder)",
+                           lambda c, o: c[1] > 0)
+    for i in diffs[:2]:
+        ck.violation({"kind": "UTF-8 encoding of a text key differs from the model encoder", "code_points": texts[i], "impl": impl7[i], "model": mo[i],
+                      "replay_op": "utf8"})
 
-    # --- 3. round robin histories
+    # --- 3. round robin histories (exact up to the first non-ascending list, then membership only)
     cases, impl, meta = [], [], []
     for _ in range(250 * scale):
-        random_start, init, calls = gen_rr(rnd)
-        outs, start0, starts = impl_rr(random_start, init, calls, rnd)
+        random_start, init, calls, mode = gen_rr(rnd)
+        draws = Draws(rnd)
+        outs, start0, starts, note = impl_rr(random_start, init, calls, draws, mode)
         ck.hist("rr_random_start" if random_start else "rr_fixed_start")
+        ck.hist("rr_all_lists_ascending" if init == sorted(init) and all(c == sorted(c) for c in calls) else "rr_some_list_not_ascending")
+        ck.hist("rr_mode_" + mode)
         ck.hist("rr_calls", len(outs))
         cases.append(rr_case(init, start0, calls, starts))
-        impl.append(outs)
-        meta.append((random_start, init, calls, start0, starts))
-        bad = monitor_rr(calls, outs)
+        impl.append(rr_canon(init, calls, outs))
+        rp = {"random_start": random_start, "init": init, "calls": calls, "mode": mode, "draws": list(draws.drawn),
+              "start0": start0, "starts": starts, "outputs": outs, "replay_op": "rr"}
+        meta.append(rp)
+        bad = monitor_rr(calls, outs) or note
         if bad:
-            ck.violation({"kind": "round-robin fairness monitor", "what": bad, "random_start": random_start, "init": init,
-                          "calls": calls, "start0": start0, "starts": starts, "outputs": outs, "replay_op": "rr"})
-    diffs, mo = ck.correspond(MODEL, MODULE, cases, impl, "RoundRobinPartitioner history vs Model.Partitioner.rr_run",
-                              nontrivial=lambda c, o: len(o) >= 3, describe=describe)
+            ck.violation(dict(rp, kind="round-robin fairness monitor", what=bad))
+    diffs, mo = correspond(cases, impl, "RoundRobinPartitioner history vs Model.Partitioner.rr_run (exact while every list is ascending)",
+                           lambda c, o: len(o) >= 3)
     if diffs and not ck.violations:
         i = diffs[0]
-        ck.violation({"kind": "correspondence broken", "correspondence": "corr:partitioner:rr_run",
-                      "theorems_no_longer_tied": ["C18_rr_fair", "C18_rr_restart"],
-                      "case": meta[i], "impl": impl[i], "model": mo[i], "replay_op": "rr"}, no_input=True)
+        ck.violation(dict(meta[i], kind="correspondence broken", correspondence="corr:partitioner:rr_run",
+                          theorems_no_longer_tied=["C18_rr_fair", "C18_rr_restart"], impl=impl[i], model=mo[i]), no_input=True)
 
     # --- 4. end to end through the real Producer (producer.py:327-335: one partitioner per topic,
     #        the CURRENT partition list of the client passed on every call)
     cases, impl, meta = [], [], []
     for _ in range(60 * scale):
         hist = producer_history(rnd)
-        per_topic = impl_producer(hist, rnd)
+        draws = Draws(rnd)
+        per_topic = impl_producer(hist, draws)
         ck.hist("producer_histories")
-        for topic, (kind, random_start, init, start0, calls, starts, keys, outs) in sorted(per_topic.items()):
+        for topic, (kind, random_start, init, start0, calls, starts, hkeys, outs) in sorted(per_topic.items()):
+            rp = {"history": hist, "draws": list(draws.drawn), "topic": topic, "outputs": outs, "replay_op": "producer"}
             if kind == "rr":
                 cases.append(rr_case(init, start0, calls, starts))
-                impl.append(outs)
-                meta.append((hist, topic))
+                impl.append(rr_canon(init, calls, outs))
+                meta.append(rp)
                 bad = monitor_rr(calls, outs)
                 if bad:
-                    ck.violation({"kind": "round-robin fairness monitor (through Producer)", "what": bad, "history": hist,
-                                  "topic": topic, "outputs": outs, "replay_op": "producer"})
+                    ck.violation(dict(rp, kind="round-robin fairness monitor (through Producer)", what=bad))
             else:
-                for k, parts, o in zip(keys, calls, outs):
+                for k, parts, o in zip(hkeys, calls, outs):
                     cases.append([2] + lp(k) + lp(parts))
                     impl.append([1, o] if o >= 0 else [0])
-                    meta.append((hist, topic))
-    diffs, mo = ck.correspond(MODEL, MODULE, cases, impl, "partitions chosen by the real Producer vs Model.Partitioner (per-topic rr_run / hashed_partition)",
-                              nontrivial=lambda c, o: len(o) >= 2, describe=describe)
+                    meta.append(rp)
+    diffs, mo = correspond(cases, impl, "partitions chosen by the real Producer vs Model.Partitioner (per-topic rr_run / hashed_partition)",
+                           lambda c, o: len(o) >= 2)
     if diffs and not ck.violations:
         i = diffs[0]
-        ck.violation({"kind": "producer does not drive its partitioner as the model says (one partitioner per topic, current list)",
-                      "history": meta[i][0], "topic": meta[i][1], "impl": impl[i], "model": mo[i], "replay_op": "producer"})
+        ck.violation(dict(meta[i], kind="producer does not drive its partitioner as the model says (one partitioner per topic, current list)",
+                          impl=impl[i], model=mo[i]))
 
-    ck.resolve_soft()   # broken translator-tied theorem and no concrete failing input found above => still a violation
+    # --- 5. end to end through the REAL KafkaClient metadata path (client.py:529-569): metadata responses list the
+    #        partitions out of order; the list that reaches the real Producer's partitioner must be ascending
+    cases, impl, meta = [], [], []
+    for _ in range(50 * scale):
+        hist = client_history(rnd)
+        draws = Draws(rnd)
+        per_topic, seen = impl_client(hist, draws)
+        ck.hist("client_histories")
+        ck.hist("client_metadata_responses_out_of_order", sum(1 for v in hist["topics"].values() if v != sorted(v)))
+        rp = {"history": hist, "draws": list(draws.drawn), "replay_op": "client"}
+        bad = monitor_client(hist, per_topic, seen)
+        if bad:
+            ck.violation(dict(rp, kind="partition list / selection through the real KafkaClient metadata path", what=bad))
+        for topic, (kind, random_start, init, start0, calls, starts, hkeys, outs) in sorted(per_topic.items()):
+            if kind == "rr":
+                # the model is given the topic's partition set ASCENDING: that is what the client must hand over
+                cases.append(rr_case(sorted(init), start0, [sorted(c) for c in calls], starts))
+                impl.append(rr_canon(sorted(init), [sorted(c) for c in calls], outs))
+            else:
+                for k, parts, o in zip(hkeys, calls, outs):
+                    cases.append([2] + lp(k) + lp(sorted(parts)))
+                    impl.append([1, o] if o >= 0 else [0])
+                    meta.append(rp)
+                continue
+            meta.append(rp)
+    diffs, mo = correspond(cases, impl, "real KafkaClient metadata (partitions out of order on the wire) -> real Producer -> partitioner vs model on the ascending list",
+                           lambda c, o: len(o) >= 2)
+    if diffs and not ck.violations:
+        i = diffs[0]
+        ck.violation(dict(meta[i], kind="through the real KafkaClient the partitioner is not driven with the ascending partition list",
+                          impl=impl[i], model=mo[i]))
+
+    # --- 6. the key coercions of the C-extension path (dead code in this sandbox: murmurhash2 is not installed)
+    try:
+        cmod = load_cpath_module()
+        cpath_ok = bool(getattr(cmod, "_c_murmur2", None))
+    except Exception as e:      # noqa: BLE001
+        cmod, cpath_ok = None, False
+        ck.cov["c_extension_path"] = "could not be loaded with a stand-in module: %r" % (e,)
+    if cpath_ok:
+        cases, impl, meta = [], [], []
+        for _ in range(150 * scale):
+            parts = gen_parts(rnd, allow_empty=False)
+            if rnd.random() < 0.5:
+                k, form = gen_key(rnd)[:40], rnd.choice(["bytes", "bytearray"])
+                cases.append([2] + lp(k) + lp(parts))
+            else:
+                k, form = gen_text(rnd), "text"
+                cases.append([3] + lp(k) + lp(parts))
+            impl.append(impl_hashed(k, parts, form, cls=cmod.HashedPartitioner))
+            meta.append((k, parts, form))
+        diffs, mo = correspond(cases, impl, "HashedPartitioner with the C-extension coercions (murmurhash2 replaced by a reference stand-in) vs model",
+                               lambda c, o: o[0] == 1)
+        for i in diffs[:2]:
+            k, parts, form = meta[i]
+            ck.violation({"kind": "C-extension coercion path: partition differs from the model", "key": k, "form": form, "partitions": parts,
+                          "impl": impl[i], "model": mo[i], "replay_op": "hashed_cpath"})
+        ck.cov["c_extension_path"] = "coercion code partitioner.py:171-186 executed with a stand-in murmurhash2 (the C function itself is not installed here and not exercised)"
+
+    # --- verdict of the two ties
+    if not tie_a:
+        ck.cov["translator"]["consequence"] = (
+            "tie (B) carried the hash alone: %d differences over all correspondences of this run, key sample x20 + every length 0..64"
+            % ndiff[0])
+        if ndiff[0] and not ck.violations:
+            ck.violation({"kind": "translator tie unavailable and the differential correspondence is not clean",
+                          "translator_tie": ck.cov["translator_tie"], "differences": ndiff[0]}, no_input=True)
     if ck.tier == "thorough":
-        ck.coqchk(["AV.Props.C18"] + ([] if getattr(ck, "soft_broken", None) else ["AV.Props.C18gen"]))
+        libs = ["AV.Props.C18"]
+        ok, _ = ck.make_soft("Props/C18gen.vo")
+        if ok:
+            libs.append("AV.Props.C18gen")
+        ck.coqchk(libs)
     ck.cov["rule"] = ("seeded generator (random.Random(VERIF_SEED)): byte keys of every length mod 4 incl. bytes>=0x80 and up to 600 bytes, "
-                      "text keys incl. non-BMP and lone surrogates, partition lists (contiguous, sparse, unsorted, duplicated, empty), "
-                      "round-robin histories with list changes and random/fixed start (randint values read back). "
-                      "A case is non-trivial if the key is non-empty / a partition was returned / the history has >=3 selections; "
-                      "distinct = distinct canonical case lines.")
+                      "3690 JVM-produced vectors, text keys incl. non-BMP and lone surrogates, partition lists (contiguous, sparse, unsorted, "
+                      "duplicated, empty), round-robin histories with list changes and random/fixed start (randint values read back; same / "
+                      "fresh list objects), histories through the real Producer and through the real KafkaClient metadata path with "
+                      "out-of-order metadata responses. A case is non-trivial if the key is non-empty / a partition was returned / the "
+                      "history has >=3 selections; distinct = distinct canonical case lines.")
     ck.assumptions += [
-        "pure_murmur2: Model/MurmurGen.v is regenerated from the source by the translator harness/py2coq.py (trusted: the translator's reading of Python ints as Z, //,% as Z.div/Z.modulo on non-negative operands, indexing as nth) and proved equal to the hand model on every run",
-        "hand-written Gallina models Model/Murmur.v, Model/Partitioner.v stand for afkak/partitioner.py:29-99,131-219 (HashedPartitioner/RoundRobinPartitioner tie checked by this run's correspondence only)",
-        "murmur2_java is a transcription of org.apache.kafka.common.utils.Utils.murmur2 with two's-complement int32 semantics (validated against Kafka's UtilsTest vectors in Props/C18.v)",
-        "CPython str.encode('UTF-8') modelled by Model.Partitioner.utf8 (checked by correspondence)",
+        "tie (A): pure_murmur2 is translated from the source by harness/py2coq.py on every run and proved equal to the hand model by the generic tactic Proofs/MurmurGenTac.v (trusted: the translator's reading of Python ints as Z, //,% as Z.div/Z.modulo with non-zero constant divisors, shifts by non-negative constants, indexing as py_index; validated against CPython by harness/py2coq_selftest.py); this run: " + ck.cov["translator_tie"],
+        "tie (B): hand-written Gallina models Model/Murmur.v, Model/Partitioner.v stand for afkak/partitioner.py:29-99,131-219 (HashedPartitioner/RoundRobinPartitioner tie checked by this run's correspondence only)",
+        "murmur2_java / java_partition are transcriptions of org.apache.kafka.common.utils.Utils.murmur2 / toPositive(..) % n with two's-complement int32 semantics, compared on every run with 3690 values produced once by a real JVM (harness/corpus/C18)",
+        "CPython's UTF-8 encoder modelled by Model.Partitioner.utf8, proved against the RFC 3629 decoder utf8_decode, tied to CPython by correspondence",
+        "behaviour for NON-ascending partition lists is outside the property: selections after the first non-ascending list of a history are compared only as members of the supplied list",
         "extraction: Require Extraction ExtrOcamlBasic only (bool, option, unit, list, prod, sumbool, sumor to OCaml natives); Z/positive/nat stay Coq datatypes; OCaml 4.13.1 ocamlopt; sample re-evaluated in Coq by vm_compute",
-        "the C murmurhash2 extension is not installed in this sandbox; only the pure-Python path is exercised",
+        "the C murmurhash2 extension is not installed in this sandbox: partitioner.py:171-186 is dead code here; its key coercions are executed with a stand-in module, the C hash itself is not",
     ]
     ck.cov["trusted_base"] += ["correspondence harness harness/props/C18.py + harness/vlib.py", "extracted OCaml runner (ExtrOcamlBasic) cross-checked by vm_compute sample"]
 
@@ -428,24 +838,80 @@ def shrink_key(key, bad):
     return key
 
 
+# ------------------------------------------------------------------ replay: re-run the stored case on the implementation
+def run_model(cases):
+    exe = os.path.join(vlib.OUT, "run_" + MODEL)
+    if not os.path.exists(exe):
+        return None
+    import subprocess
+    inp = "\n".join(vlib.encode_line(c) for c in cases) + "\n"
+    p = subprocess.run([exe], input=inp.encode(), stdout=subprocess.PIPE, timeout=120)
+    return [[int(t) for t in l.split()] for l in p.stdout.decode().splitlines()]
+
+
+def verdict(label, impl, model, monitor):
+    print(label)
+    print("  implementation now:", impl)
+    if model is not None:
+        print("  model             :", model)
+    print("  monitor           :", monitor or "ok")
+    bad = bool(monitor) or (model is not None and list(impl) != list(model))
+    print("  verdict           :", "FAIL" if bad else "pass")
+    return 1 if bad else 0
+
+
 def replay(rp):
     op = rp.get("replay_op")
-    if op == "murmur":
+    if op in ("murmur", "vector"):
         k = rp["key_bytes"]
         a, b = impl_murmur(k)[0], java_murmur2(k) & 0xFFFFFFFF
-        print("key", k, "impl", a, "java", b)
-        return 0 if a == b else 1
-    if op == "hashed":
-        print(rp)
-        print("impl now:", impl_hashed(rp["key"], rp["partitions"], rp.get("form", "bytes")))
-        return 1
+        n_list = rp.get("n_list") or [1, 2, 3, 7, 12, 50]
+        from afkak.partitioner import HashedPartitioner
+        hp = HashedPartitioner("t", [0])
+        ids = [hp.partition(bytes(k), list(range(n))) for n in n_list]
+        jids = [java_partition(k, n) for n in n_list]
+        print("key", k, "pure_murmur2", a, "java", b, "partition ids", ids, "java ids", jids, "for n in", n_list)
+        return 0 if a == b and ids == jids else 1
+    if op in ("hashed", "hashed_cpath"):
+        cls = load_cpath_module().HashedPartitioner if op == "hashed_cpath" else None
+        form = rp.get("form", "bytes")
+        o = impl_hashed(rp["key"], rp["partitions"], form, cls=cls)
+        mo = run_model([[3 if form == "text" else 2] + lp(rp["key"]) + lp(rp["partitions"])])
+        mon = None
+        if o[0] == 1 and o[1] not in rp["partitions"]:
+            mon = "result outside the partition list"
+        elif o[0] < 0:
+            mon = {-2: "non-deterministic", -3: "IndexError", -4: "caller's list modified"}.get(o[0], "error")
+        return verdict("hashed partition of %r (%s) over %r" % (rp["key"], form, rp["partitions"]), o, mo[0] if mo else None, mon)
+    if op == "utf8":
+        o = impl_utf8(rp["code_points"])
+        mo = run_model([[7] + lp(rp["code_points"])])
+        return verdict("UTF-8 of %r" % (rp["code_points"],), o, mo[0] if mo else None, None)
     if op == "rr":
-        print(json_dump(rp))
-        return 1
-    print(rp)
+        draws = Draws(replay=rp.get("draws", []))
+        outs, start0, starts, note = impl_rr(rp["random_start"], rp["init"], rp["calls"], draws, rp.get("mode", "copy"))
+        mo = run_model([rr_case(rp["init"], start0, rp["calls"], starts)])
+        return verdict("round-robin history init=%r random_start=%r" % (rp["init"], rp["random_start"]),
+                       rr_canon(rp["init"], rp["calls"], outs), mo[0] if mo else None, monitor_rr(rp["calls"], outs) or note)
+    if op in ("producer", "client"):
+        hist = rp["history"]
+        draws = Draws(replay=rp.get("draws", []))
+        if op == "producer":
+            per_topic, seen = impl_producer(hist, draws), []
+            mon = None
+        else:
+            per_topic, seen = impl_client(hist, draws)
+            mon = monitor_client(hist, per_topic, seen)
+        rc = 0
+        for topic, (kind, random_start, init, start0, calls, starts, hkeys, outs) in sorted(per_topic.items()):
+            srt = (lambda l: sorted(l)) if op == "client" else (lambda l: l)
+            if kind == "rr":
+                cl = [srt(c) for c in calls]
+                mo = run_model([rr_case(srt(init), start0, cl, starts)])
+                rc |= verdict("topic %s (round robin)" % topic, rr_canon(srt(init), cl, outs), mo[0] if mo else None, monitor_rr(cl, outs) or mon)
+            else:
+                mo = run_model([[2] + lp(k) + lp(srt(p)) for k, p in zip(hkeys, calls)])
+                rc |= verdict("topic %s (hashed)" % topic, [[1, o] if o >= 0 else [0] for o in outs], mo, mon)
+        return rc
+    print(json.dumps(rp, indent=1, default=repr))
     return 1
-
-
-def json_dump(x):
-    import json
-    return json.dumps(x, indent=1, default=repr)
